@@ -258,7 +258,7 @@ class Context:
         self.basis = Basis(m, self.elem)
         e = self.elem
         self.counts = (int(e.nodal_dofs), int(e.edge_dofs), int(e.facet_dofs), int(e.interior_dofs))
-        self.dim = int(e.dim)
+        self.dim = C04.guard_dim(e)
         self.names = list(e.dofnames)
         self.name_ids = {}
         for nm in self.names:
